@@ -808,6 +808,9 @@ end
 -- Emits all statements from a block.
 function visitors.Block(context, node, emitter)
   local scope = context:push_forked_scope(node)
+  -- a block can be emitted many times (defer blocks are emitted at every scope exit),
+  -- the defers registered while emitting it must start empty each time
+  scope.deferblocks = nil
   emitter:inc_indent()
   emitter:add_list(node, '')
   if scope.parent.is_repeat_loop then
